@@ -569,6 +569,9 @@ func (x *Exec) runBody(u *Unit, st *State, sig *types.Signature, body *ast.Block
 			x.checkPost(u, e, entrySt, mk, res, body)
 		})
 	}
+	if want := x.opts["delegates"]; want != "" && pc != nil {
+		x.checkDelegation(st, body, sig, want)
+	}
 	if pc != nil && pc.LoopCount > 0 {
 		if n := countLoops(body); n != pc.LoopCount {
 			x.staleOrdinals = true
